@@ -429,6 +429,81 @@ func (r *lvRun) scenarioSilentServer() {
 	r.sink.Emit("drv", "lv.silentserver", "T_ms", lvT*1000, "client_closed_ms", r.firstCloseAfter(port, t0), "relogin_ms", relogin)
 }
 
+// scenario G: the path accepts the connection and swallows the login (no answer, no reset); later connections reach a
+// scripted server that answers. The client must give the unanswered exchange up (login deadline, 10 s) and try again.
+func (r *lvRun) scenarioLoginSwallowed() {
+	ln, err := net.Listen("tcp", "127.0.0.1:0")
+	if err != nil {
+		panic(err)
+	}
+	defer ln.Close()
+	port := ln.Addr().(*net.TCPAddr).Port
+	var conns, logins int32
+	var firstAt atomic.Value
+	firstAt.Store(time.Time{})
+	go func() {
+		for {
+			c, err := ln.Accept()
+			if err != nil {
+				return
+			}
+			n := atomic.AddInt32(&conns, 1)
+			go func(c net.Conn, n int32) {
+				if n == 1 {
+					firstAt.Store(time.Now())
+					_, _ = io.Copy(io.Discard, c) // swallowed: read everything, answer nothing, keep the socket open
+					return
+				}
+				m, err := msg.ReadMsg(c)
+				if err != nil {
+					c.Close()
+					return
+				}
+				if _, ok := m.(*msg.Login); !ok {
+					_, _ = io.Copy(io.Discard, c)
+					return
+				}
+				k := atomic.AddInt32(&logins, 1)
+				_ = msg.WriteMsg(c, &msg.LoginResp{Version: "0.61.1", RunID: fmt.Sprintf("late%d", k)})
+				rw, _ := netpkg.NewCryptoReadWriter(c, []byte(env.Token))
+				for {
+					mm, err := msg.ReadMsg(rw)
+					if err != nil {
+						return
+					}
+					if _, ok := mm.(*msg.Ping); ok {
+						_ = msg.WriteMsg(rw, &msg.Pong{})
+					}
+				}
+			}(c, n)
+		}
+	}()
+	cli, err := env.StartClient(port, func(c *v1.ClientCommonConfig) {
+		c.Transport.TLS.Enable = lo.ToPtr(false)
+		c.Transport.TCPMux = lo.ToPtr(false)
+		c.LoginFailExit = lo.ToPtr(false)
+		c.Transport.HeartbeatInterval = 1
+		c.Transport.HeartbeatTimeout = lvT
+	}, nil, nil)
+	if err != nil && cli == nil {
+		r.sink.Emit("drv", "drv.note", "what", "login-swallowed scenario did not start")
+		return
+	}
+	if cli != nil {
+		defer cli.Stop()
+	}
+	if !waitFor(5*time.Second, func() bool { return !firstAt.Load().(time.Time).IsZero() }) {
+		r.sink.Emit("drv", "drv.note", "what", "login-swallowed scenario: the client never connected")
+		return
+	}
+	t0 := firstAt.Load().(time.Time)
+	relogin := int64(-1)
+	if waitFor(19*time.Second, func() bool { return atomic.LoadInt32(&logins) >= 1 }) {
+		relogin = time.Since(t0).Milliseconds()
+	}
+	r.sink.Emit("drv", "lv.loginswallowed", "deadline_ms", 10000, "relogin_ms", relogin, "connections", atomic.LoadInt32(&conns))
+}
+
 func livenessCmd(args []string) int {
 	fs := flag.NewFlagSet("liveness", flag.ExitOnError)
 	out := fs.String("out", "liveness.ndjson", "trace output")
@@ -499,6 +574,7 @@ func livenessCmd(args []string) int {
 		run(r.scenarioInvalidPings)
 		run(r.scenarioRestart)
 		run(r.scenarioSilentServer)
+		run(r.scenarioLoginSwallowed)
 		wg.Wait()
 		verifhookSet(nil)
 	}
